@@ -198,12 +198,10 @@ static bool interesting_name(const std::string& n) {
 using namespace vh;
 template <typename F> using fnptr = F*;
 
+// function-local static: initialised once, thread-safely (the threaded drivers run under TSan)
 #define REALFN(type, name) \
   typedef std::remove_pointer_t<type>* real_fn_t; \
-  static real_fn_t real = nullptr; \
-  if (!real) { \
-    real = (real_fn_t)dlsym(RTLD_NEXT, name); \
-  }
+  static real_fn_t const real = (real_fn_t)dlsym(RTLD_NEXT, name);
 
 extern "C" {
 
@@ -585,10 +583,9 @@ int openat64(int dirfd, const char* path, int flags, ...) {
 
 static FILE* fopen_common(const char* path, const char* mode, const char* sym) {
   typedef FILE* (*fn_t)(const char*, const char*);
-  static fn_t real = nullptr;
-  if (!real) {
-    real = (fn_t)dlsym(RTLD_NEXT, sym);
-  }
+  static fn_t const real_fopen = (fn_t)dlsym(RTLD_NEXT, "fopen");
+  static fn_t const real_fopen64 = (fn_t)dlsym(RTLD_NEXT, "fopen64");
+  fn_t real = strcmp(sym, "fopen") == 0 ? real_fopen : real_fopen64;
   std::string store;
   const char* p = redirect(path, store);
   if (active() && p) {
@@ -672,10 +669,7 @@ struct dirent64* readdir64(DIR* d) {
 // escapes Oomd::run() (or terminates a thread) can be attributed to a call site
 void __cxa_throw(void* obj, void* tinfo, void (*dest)(void*)) {
   typedef void (*fn_t)(void*, void*, void (*)(void*));
-  static fn_t real = nullptr;
-  if (!real) {
-    real = (fn_t)dlsym(RTLD_NEXT, "__cxa_throw");
-  }
+  static fn_t const real = (fn_t)dlsym(RTLD_NEXT, "__cxa_throw");
   if (g.armed && t_bypass == 0) {
     Bypass b;
     void* fr[24];
